@@ -524,6 +524,56 @@ def rule_z8(repo):
             '(!x::int. (?x::nat. x > 0) --> x >= 0 was proved)' % (bad[0].lineno, src(bad[0], 60)), 'prover/z3wrapper.py:%d' % (bad[0] if bad else defs[0]).lineno)
     return res
 
+def rule_z9(repo):
+    """A leaf of the goal becomes the Z3 constant *named like it* (`convert_const(t.name, ..)`): Z3 knows a constant by name
+    and sort.  Two things elsewhere rely on what kinds of leaf get that treatment.  (a) The names chosen for binders avoid
+    the list `var_names`, which solve_core collects with one of the term collectors (get_vars: ordinary variables;
+    get_svars: schematic ones): a kind that is translated but not collected can be captured by a binder of the same name
+    (!k. k = ?k).  (b) One name stands for one HOL object only if a single kind of leaf is translated that way: ?n and n
+    are different variables and would share one constant (n = 0 --> ?n = 0).  Contradiction rule between the two sites:
+    kinds translated by name, within the kinds collected, and not more than one."""
+    from ..kinds import infeasible_edges
+    res = RuleResult('C06.Z9', 'the kinds of leaf translated to a Z3 constant of the same name are the kinds whose names binders avoid, one kind per name', floor=1)
+    Z3W = 'prover/z3wrapper.py'
+    f = repo.func(Z3W, 'convert.<locals>.rec')
+    cfg = cfg_of(f.node)
+    p = f.params()[0]
+    sites = [n for n in cfg.nodes if n.ast is not None and n.kind in ('stmt', 'test', 'return') and any(
+        isinstance(c, ast.Call) and (call_name(c) or '').split('.')[-1] == 'convert_const' and c.args and
+        isinstance(c.args[0], ast.Attribute) and c.args[0].attr == 'name' and is_name(c.args[0].value, p)
+        for h in cfg.headers(n) for c in ast.walk(h))]
+    need(sites, 'convert.rec: no leaf translated to a constant of its own name (convert_const(%s.name, ..))' % p)
+    translated = set()
+    for k in ('var', 'svar'):
+        skip = infeasible_edges(cfg, lambda e: is_name(e, p), k)
+        if any(cfg.path_avoiding(s_, skip_edges=skip) is not None for s_ in sites):
+            translated.add(k)
+    g = repo.func(Z3W, 'solve_core')
+    contrib = [n.value for n in ast.walk(g.node) if isinstance(n, ast.Assign) and any(is_name(t, 'var_names') for t in n.targets)]
+    need(contrib, 'solve_core: the list of names to avoid (var_names) not found')
+    flow = flow_of(g.node)
+    collected = set()
+    for v in contrib:
+        for c in ast.walk(flow.inline(v)):
+            if isinstance(c, ast.Call):
+                nm = (call_name(c) or call_attr(c) or '').split('.')[-1]
+                if nm == 'get_vars':
+                    collected.add('var')
+                if nm == 'get_svars':
+                    collected.add('svar')
+    need(collected, 'solve_core: var_names is not built with get_vars / get_svars')
+    missing = sorted(translated - collected)
+    ok = not missing and len(translated) <= 1
+    res.add('%s :: convert.rec vs solve_core :: kinds-translated-by-name' % Z3W, ok,
+            'translated by name: %s; names collected for binders to avoid: %s' % (sorted(translated), sorted(collected)) if ok else
+            'leaves of kind %s become the Z3 constant of the same name%s%s' % (
+                ' and '.join(sorted(translated)),
+                ('; binder names only avoid the %s names (solve_core), so a binder can take the name of a %s: !k. k = ?k is "proved"' % (
+                    '/'.join(sorted(collected)), missing[0])) if missing else '',
+                '; a schematic and an ordinary variable of one name share one constant: n = 0 --> ?n = 0 is "proved"' if len(translated) > 1 else ''),
+            '%s:%d' % (Z3W, sites[0].lineno))
+    return res
+
 
 def rule_s4(repo):
     """solve_with_interval accepts a goal when the set of solutions within the premise's interval is that interval (or, for
@@ -564,4 +614,4 @@ def rule_s4(repo):
 
 
 def rules(repo):
-    return [rule_z1(repo)] + rule_z2_z3(repo) + [rule_z4(repo), rule_s1(repo), rule_s2(repo), rule_s3(repo), rule_s4(repo), rule_z5(repo), rule_z6(repo), rule_z7(repo), rule_z8(repo)]
+    return [rule_z1(repo)] + rule_z2_z3(repo) + [rule_z4(repo), rule_s1(repo), rule_s2(repo), rule_s3(repo), rule_s4(repo), rule_z5(repo), rule_z6(repo), rule_z7(repo), rule_z8(repo), rule_z9(repo)]
